@@ -24,7 +24,7 @@ func init() {
 	ev.Register(&ev.Check{
 		ID:             "C12",
 		Level:          "model_checking",
-		Rule:           "stateless exploration (CHESS-style DFS over choice prefixes) of the REAL library under a controlled scheduler injected by a build overlay (every sync.Once/Mutex/RWMutex/Pool operation of the library is a scheduling point; exactly one test goroutine runs at a time): scenarios S1 (uncompiled shared schema with types/enum, 2 threads x every ordered pair of ops from {Check, Validate, Example, GetAST, Len, UsedUserTypes}, 3 threads x 1 op), S2 (2 threads x 2 ops: first use + reuse), S3 (two root schemas sharing one added-type object using allOf + or, compiled concurrently), S3b (the same with a shared added type made of ruled literals only, also Example), S4 (shared compiled schema validated by 2 threads while a third creates, compiles and Example()s a private schema), S5 (enum rule / regex type first use), S6 (2 and 3 goroutines each creating, loading, compiling and using private schemas: only the global pools are shared), S7 (first use of a shared schema WITHOUT added types, valid and invalid: its first load is raced as well); ALL interleavings with <= 2 preemptions (3 threads: <= 1; thorough: 3 / 2) crossed with pool-answer deviations (<= 1). Oracle per execution: every call returns exactly its sequential result; every Once body ran once; no deadlock/livelock; the race detector (running as per-execution happens-before monitor: the scheduler's hand-off is invisible to it) reports nothing. states = distinct decision points visited, transitions = scheduling decisions taken, traces_validated_against_impl = executions (each one is an execution of the implementation).",
+		Rule:           "stateless exploration (CHESS-style DFS over choice prefixes) of the REAL library under a controlled scheduler injected by a build overlay (every sync.Once/Mutex/RWMutex/Pool operation of the library is a scheduling point; exactly one test goroutine runs at a time): scenarios S1 (uncompiled shared schema with types/enum, 2 threads x every ordered pair of ops from {Check, Validate, Example, GetAST, Len, UsedUserTypes}, 3 threads x 1 op), S2 (2 threads x 2 ops: first use + reuse), S3 (two root schemas sharing one added-type object using allOf + or, compiled concurrently), S3b (the same with a shared added type made of ruled literals only, also Example), S4 (shared compiled schema validated by 2 threads while a third creates, compiles and Example()s a private schema), S5 (enum rule / regex type first use), S6 (2 and 3 goroutines each creating, loading, compiling and using private schemas: only the global pools are shared), S7 (first use of a shared schema WITHOUT added types, valid and invalid: its first load is raced as well), S8 (documents lacking required keys / holding unknown keys validated concurrently against a compiled shared schema); ALL interleavings with <= 2 preemptions (3 threads: <= 1; thorough: 3 / 2) crossed with pool-answer deviations (<= 1). Oracle per execution: every call returns exactly its sequential result; every Once body ran once; no deadlock/livelock; the race detector (running as per-execution happens-before monitor: the scheduler's hand-off is invisible to it) reports nothing. states = distinct decision points visited, transitions = scheduling decisions taken, traces_validated_against_impl = executions (each one is an execution of the implementation).",
 		Workers:        func(string) int { return 16 },
 		Run:            run,
 		Replay:         replay,
@@ -101,7 +101,19 @@ var ops = []op{
 	}},
 	{"Len", func(s *jschema.Schema) string { n, err := s.Len(); return fmt.Sprint(n, " ", errStr(err)) }},
 	{"UsedUserTypes", func(s *jschema.Schema) string { u, err := s.UsedUserTypes(); return fmt.Sprint(u, " ", errStr(err)) }},
+	// documents that lack required keys (the error paths of the validator read - and must only read - the
+	// compiled schema); used by the S8 scenarios only
+	{"Validate(name missing)", func(s *jschema.Schema) string {
+		return errStr(s.Validate(json.New("doc", `{"id":1,"tags":["a"],"level":3}`)))
+	}},
+	{"Validate(three keys missing)", func(s *jschema.Schema) string { return errStr(s.Validate(json.New("doc", `{"level":1}`))) }},
+	{"Validate(unknown key)", func(s *jschema.Schema) string {
+		return errStr(s.Validate(json.New("doc", `{"id":1,"name":"x","tags":[],"level":2,"zz":1}`)))
+	}},
 }
+
+// baseOps: the operations crossed pairwise in S1 (the ones after them appear in dedicated scenarios).
+const baseOps = 7
 
 // expected sequential results
 var expected = map[string]string{}
@@ -385,8 +397,8 @@ func enumRegexScenario() scenario {
 func scenarios(thorough bool) []scenario {
 	out := []scenario{sharedTypeScenario(), sharedPlainTypeScenario(), privateSchemaScenario(), enumRegexScenario(), creatorsScenario(2), creatorsScenario(3)}
 	// S1: 2 threads x 1 op, every ordered pair (uncompiled)
-	for a := range ops {
-		for b := a; b < len(ops); b++ {
+	for a := 0; a < baseOps; a++ {
+		for b := a; b < baseOps; b++ {
 			out = append(out, opsScenario(fmt.Sprintf("S1 first use: %s || %s", ops[a].name, ops[b].name), [][]int{{a}, {b}}, false))
 		}
 	}
@@ -420,6 +432,14 @@ func scenarios(thorough bool) []scenario {
 			out = append(out, opsScenario(fmt.Sprintf("S2 %s;%s || %s;%s", ops[p[0]].name, ops[p[1]].name, ops[q[0]].name, ops[q[1]].name), [][]int{{p[0], p[1]}, {q[0], q[1]}}, false))
 		}
 	}
+	// S8: rejected documents on a compiled shared schema (missing required keys, unknown key)
+	out = append(out,
+		opsScenario("S8 compiled: Validate(name missing) || Validate(good)", [][]int{{7}, {1}}, true),
+		opsScenario("S8 compiled: Validate(name missing) || Validate(three keys missing)", [][]int{{7}, {8}}, true),
+		opsScenario("S8 compiled: Validate(name missing);Validate(good) || Validate(good);Validate(three keys missing)", [][]int{{7, 1}, {1, 8}}, true),
+		opsScenario("S8 compiled x3: Validate(name missing) || Validate(good) || Validate(three keys missing)", [][]int{{7}, {1}, {8}}, true),
+		opsScenario("S8 compiled x3: Validate(unknown key) || Validate(bad) || Validate(name missing)", [][]int{{9}, {2}, {7}}, true),
+		opsScenario("S8 first use: Validate(name missing) || Validate(three keys missing)", [][]int{{7}, {8}}, false))
 	// reuse on a compiled schema, 3 threads x 2 ops
 	out = append(out, opsScenario("S2 compiled x3: Validate;Example || Validate(bad);GetAST || Example;Validate", [][]int{{1, 3}, {2, 4}, {3, 1}}, true))
 	return out
